@@ -3,7 +3,7 @@ import json
 
 
 def run(ctx):
-    decs = ctx.pick('{"nil", "A", "B"}', '{"nil", "A", "A2", "B"}')
+    decs = ctx.pick('{"nil", "A", "A3", "B"}', '{"nil", "A", "A2", "A3", "B"}')
     for n in ctx.pick((2, 4, 5), (1, 2, 3, 4, 5, 6)):
         r = ctx.model_check("consensus", "MC_VoteSet", "MC_VoteSet.cfg",
                             constants={"N": n, "Decs": decs if n <= 5 else '{"nil", "A", "B"}'},
@@ -15,13 +15,13 @@ def run(ctx):
     if ctx.replay:
         allb = [json.load(open(ctx.replay))["detail"]["behaviour"]]
     else:
-        for n, d in ctx.pick(((2, 4), (3, 3), (4, 3)), ((1, 6), (2, 5), (3, 4), (4, 3), (5, 3))):
+        for n, d in ctx.pick(((2, 3), (3, 3), (4, 2)), ((1, 6), (2, 5), (3, 4), (4, 3), (5, 3))):
             allb += ctx.behaviours("consensus", "Gen_VoteSet", "Gen_VoteSet.cfg",
                                    constants={"N": n, "MaxOps": d, "Depth": d}, timeout=600)
         for n in ctx.pick((1, 5, 7, 8), (1, 2, 3, 4, 5, 6, 7, 8, 10, 11)):
             wl = ctx.pick(30, 60)
             allb += ctx.behaviours("consensus", "Gen_VoteSet", "Gen_VoteSet.cfg",
-                                   constants={"N": n, "MaxOps": wl, "Depth": wl, "Decs": '{"nil", "A", "A2", "B"}'},
+                                   constants={"N": n, "MaxOps": wl, "Depth": wl, "Decs": '{"nil", "A", "A2", "A3", "B"}'},
                                    simulate="num=%d" % ctx.pick(150, 3000), depth=wl + 1, seed=ctx.seed + n,
                                    timeout=600)
     inp = ctx.path("in", "behaviours.ndjson")
